@@ -143,40 +143,52 @@ func (t TCPOption) String() string {
 	case TCPOptionKindMultipathTCP:
 		switch t.OptionMultipath {
 		case MPTCPSubtypeMPCAPABLE:
-			return fmt.Sprintf("MPTCPOption(%s Version %v)",
-				t.OptionMultipath,
-				t.OptionMPTCPMpCapable.Version)
+			if t.OptionMPTCPMpCapable != nil {
+				return fmt.Sprintf("MPTCPOption(%s Version %v)",
+					t.OptionMultipath,
+					t.OptionMPTCPMpCapable.Version)
+			}
 		case MPTCPSubtypeMPJOIN:
-			return fmt.Sprintf("MPTCPOption(%s Backup %v;Address ID %v)",
-				t.OptionMultipath,
-				t.OptionMPTCPMpJoin.Backup,
-				t.OptionMPTCPMpJoin.AddrID)
+			if t.OptionMPTCPMpJoin != nil {
+				return fmt.Sprintf("MPTCPOption(%s Backup %v;Address ID %v)",
+					t.OptionMultipath,
+					t.OptionMPTCPMpJoin.Backup,
+					t.OptionMPTCPMpJoin.AddrID)
+			}
 		case MPTCPSubtypeDSS:
 			return fmt.Sprintf("MPTCPOption(%s)",
 				t.OptionMultipath)
 		case MPTCPSubtypeMPPRIO:
-			return fmt.Sprintf("MPTCPOption(%s Backup %v;Address ID %v)",
-				t.OptionMultipath,
-				t.OptionMPTCPMpPrio.Backup,
-				t.OptionMPTCPMpPrio.AddrID)
+			if t.OptionMPTCPMpPrio != nil {
+				return fmt.Sprintf("MPTCPOption(%s Backup %v;Address ID %v)",
+					t.OptionMultipath,
+					t.OptionMPTCPMpPrio.Backup,
+					t.OptionMPTCPMpPrio.AddrID)
+			}
 		case MPTCPSubtypeADDADDR:
-			return fmt.Sprintf("MPTCPOption(%s Address ID %v;Address %v;Port %v)",
-				t.OptionMultipath,
-				t.OptionMPTCPAddAddr.AddrID,
-				t.OptionMPTCPAddAddr.Address,
-				t.OptionMPTCPAddAddr.Port)
+			if t.OptionMPTCPAddAddr != nil {
+				return fmt.Sprintf("MPTCPOption(%s Address ID %v;Address %v;Port %v)",
+					t.OptionMultipath,
+					t.OptionMPTCPAddAddr.AddrID,
+					t.OptionMPTCPAddAddr.Address,
+					t.OptionMPTCPAddAddr.Port)
+			}
 		case MPTCPSubtypeREMOVEADDR:
-			return fmt.Sprintf("MPTCPOption(%s Address ID %v)",
-				t.OptionMultipath,
-				t.OptionMTCPRemAddr.AddrIDs)
+			if t.OptionMTCPRemAddr != nil {
+				return fmt.Sprintf("MPTCPOption(%s Address ID %v)",
+					t.OptionMultipath,
+					t.OptionMTCPRemAddr.AddrIDs)
+			}
 		case MPTCPSubtypeMPFASTCLOSE:
 			return fmt.Sprintf("MPTCPOption(%s)",
 				t.OptionMultipath)
 		case MPTCPSubtypeMPTCPRST:
-			return fmt.Sprintf("MPTCPOption(%s Transient %v; Reason %v)",
-				t.OptionMultipath,
-				t.OptionMPTCPMPTcpRst.T,
-				t.OptionMPTCPMPTcpRst.Reason)
+			if t.OptionMPTCPMPTcpRst != nil {
+				return fmt.Sprintf("MPTCPOption(%s Transient %v; Reason %v)",
+					t.OptionMultipath,
+					t.OptionMPTCPMPTcpRst.T,
+					t.OptionMPTCPMPTcpRst.Reason)
+			}
 		case MPTCPSubtypeMPFAIL:
 			return fmt.Sprintf("MPTCPOption(%s)",
 				t.OptionMultipath)
